@@ -207,17 +207,6 @@ class UDSServer(ABC):
             self.state.reset()
             self.state.session = response.diagnostic_session_type
 
-        # Keep in sync with ECU.update_state(): the client also follows the session reported by the ECU.
-        if (
-            isinstance(response, service.ReadDataByIdentifierResponse)
-            and response.data_identifier == DataIdentifier.ActiveDiagnosticSessionDataIdentifier
-        ):
-            new_session = int.from_bytes(response.data_record, "big")
-
-            if self.state.session != new_session:
-                self.state.reset()
-                self.state.session = new_session
-
         if (
             isinstance(response, service.SecurityAccessResponse)
             and response.security_access_type % 2 == 0
@@ -733,6 +722,24 @@ class DBUDSServer(UDSServer):
         self,
     ) -> dict[int, dict[UDSIsoServices, list[int] | None]]:
         return {}
+
+    async def update_state(
+        self, request: service.UDSRequest, response: service.UDSResponse
+    ) -> None:
+        await super().update_state(request, response)
+
+        # Keep in sync with ECU.update_state(): the client which recorded the rows also follows the
+        # session reported by the ECU. Only the replayed ECU does so: a server which answers from its
+        # own state must not let the content of a ReadDataByIdentifier reply change that state.
+        if (
+            isinstance(response, service.ReadDataByIdentifierResponse)
+            and response.data_identifier == DataIdentifier.ActiveDiagnosticSessionDataIdentifier
+        ):
+            new_session = int.from_bytes(response.data_record, "big")
+
+            if self.state.session != new_session:
+                self.state.reset()
+                self.state.session = new_session
 
     async def respond_after_default(
         self, request: service.UDSRequest
